@@ -176,6 +176,9 @@ type Validation struct {
 	Rule    Rule   `json:"rule"`
 	Level   string `json:"level,omitempty"`
 	Message string `json:"message,omitempty"`
+	// how the message key is written when it is not a plain string: "<absent>" (no key), or the raw YAML value
+	// (empty = null, "~", "404", "true", "[a]" …): the documented fallback text applies
+	RawMessage string `json:"rawMessage,omitempty"`
 }
 
 // ---------- YAML rendering ----------
@@ -351,7 +354,15 @@ func (p ProfileSpec) Render() string {
 		if msg == "" {
 			msg = "failed " + v.Name
 		}
-		w.line(2, "message: "+yq(msg))
+		switch {
+		case v.RawMessage == "<absent>":
+		case v.RawMessage == "<null>":
+			w.line(2, "message:")
+		case v.RawMessage != "":
+			w.line(2, "message: "+v.RawMessage)
+		default:
+			w.line(2, "message: "+yq(msg))
+		}
 		c.renderRule(&w, 2, v.Rule)
 	}
 	return w.b.String()
